@@ -93,9 +93,17 @@ def ref_segments(x, starts, L, w, omega, order, chunk_elems=4_000_000):
         A[j0:j1] = np.sum(np.abs(v), axis=1)
         X[j0:j1] = v @ e
     s = abs(math.sin(omega))
-    g = 0.5 * L * min(float(L), (1.0 / s) if s > 0 else float(L)) + 64.0
+    # Goertzel recurrence: the state has magnitude |x|/|sin w|, each of the L steps rounds it once.
+    # Measured worst |error| / (u * L * min(L, 1/|sin w|) * sum|w x|): 0.05 on noise-like records,
+    # 0.2 on impulsive ones (few samples carry sum|w x|); the coefficient 2 is 10x that.
+    g = 2.0 * L * min(float(L), (1.0 / s) if s > 0 else float(L)) + 64.0
     if order >= 0:
-        D = 32.0 * (order + 1) * (1.0 + math.sqrt(L) / 8.0) * U * float(np.sum(np.abs(w))) * mx
+        # Rounding of the detrending itself, relative to the RAW segment.  Random-sign rounding
+        # grows like sqrt(L); for (nearly) constant segments the naive running sums of the kernels
+        # round with a systematic drift that grows like L (measured 0.09*L*u per basis column on a
+        # constant record seen through a one-sample window) - hence the second branch.
+        growth = max(32.0 * (1.0 + math.sqrt(L) / 8.0), 0.5 * L)
+        D = (order + 1) * growth * U * float(np.sum(np.abs(w))) * mx
     else:
         D = np.zeros(K)
     delta = g * U * A + (1.0 + g * U) * D
